@@ -204,3 +204,9 @@ Qed.
 
 Lemma custom_objects_none d : json_to_data_custom (data_to_json d) [] = d.
 Proof. rewrite custom_objects_spec. cbn [lookup_custom]. induction d as [|[k v] d IH]; [reflexivity|]. cbn [map fst snd]. now rewrite IH. Qed.
+
+(* ---------- model mutation score: what json.dumps accepts, pinned ---------- *)
+Example dumps_ok_pins :
+  dumps_ok (JDict [(KOther 1, JNull)]) = false /\ dumps_ok (JDict [(KI 1, JNull); (KSub 4 "k", JTuple [JFloat 1 true])]) = true /\
+  dumps_ok (JList [JOpaque 1]) = false /\ dumps_ok (JSub 1 (JFloat 1 false)) = true /\ dumps_ok (JSub 1 (JList [])) = false.
+Proof. repeat split. Qed.
